@@ -9,7 +9,7 @@
    violating row at the SOURCE's tolerances and constants (Gen/GenWrapTol.v, Gen/GenConst.v). *)
 From Coq Require Import List Bool ZArith QArith Qcanon Field.
 From MV Require Import Gen.GenConst Gen.GenWrapTol Model.WrapModel Model.WrapExec Model.WrapSrc
-                       Proofs.WrapProofs Proofs.WrapWitness.
+                       Proofs.WrapProofs Proofs.WrapWitness Proofs.WrapGroup.
 Import ListNotations.
 
 Section AnyField.
@@ -156,6 +156,17 @@ Print Assumptions C02_polyline.
 Print Assumptions C02_polyline_batch_is_rowwise.
 Print Assumptions C02_dipole.
 Print Assumptions C02_attr_sync.
+
+(* the grouping loop of BHJM_magnet_trimesh (in_out = "auto", after commit 8fe828e), for ALL lists of meshes and any
+   reflexive mesh comparison: every row i is visited, and the mesh its inside test (msh_ins, hence J = pol <-> ...)
+   uses is mesh k for a run k..i of rows whose meshes all compare equal to mesh k -- in particular row i's own *)
+Theorem C02_trimesh_grouping : forall (N : NumOps) (me : list tri -> list tri -> bool),
+  (forall m, me m m = true) ->
+  forall (meshes : list (list tri)) (i : nat), (i < length meshes)%nat ->
+  exists k, mesh_used me meshes i = Some k /\ (k <= i)%nat /\
+            forall j, (k <= j <= i)%nat -> me (nth j meshes []) (nth k meshes []) = true.
+Proof. exact (@mesh_used_spec). Qed.
+Print Assumptions C02_trimesh_grouping.
 
 (* ------------------------------------------------------------------ GenConst obligations (source constants) *)
 (* every `mu_0` / `MU0` name of the package and every bare use of it has the value of magpylib.mu_0 *)
